@@ -395,6 +395,10 @@ class AbsEval(ConstEval):
         return super().exec_stmt(s, env, mod)
 
     def assign(self, tgt, val, env, mod):
+        if isinstance(tgt, (ast.Tuple, ast.List)) and isinstance(val, Res):
+            for k, t in enumerate(tgt.elts):
+                self.assign(t, Res("item", val, k), env, mod)
+            return
         if isinstance(tgt, ast.Subscript):
             base = self.eval(tgt.value, env, mod)
             if isinstance(base, dict):
